@@ -117,6 +117,8 @@ def main():
             if props and prop not in props:
                 continue
             patch = os.path.join(d, 'patch.diff')
+            if a.name and os.path.basename(d) not in a.name.split(','):
+                continue
             if os.path.exists(patch):
                 jobs.append(('mutants', prop, patch, None))
     results = []
